@@ -94,3 +94,84 @@ CHECKS["C07"] = dict(_tm_common, **{
         "trace": ("TM_Trace", "TM_Trace.cfg"),
     }],
 })
+
+AT_TB = TC_TB + ["memsql, the in-memory MySQL stand-in (harness/memsql): value kinds, scan types and error numbers "
+                 "transcribed from go-sql-driver/mysql v1.6.0; row locks, unique keys, transactions, XA",
+                 "the abstract-row projection of concrete tables in harness/atlab"]
+
+
+def _atrb_legs(gen_quick, gen_thorough, variants_quick, variants_thorough):
+    def legs(tier):
+        out = []
+        for name, env in (variants_thorough if tier == "thorough" else variants_quick):
+            out.append({
+                "name": "atrb-" + name, "driver": "atrb", "env": env,
+                "gen": [("ATRollback_MC", g) for g in (gen_thorough if tier == "thorough" else gen_quick)],
+                "trace": ("ATRollback_Trace", "ATRollback_Trace.cfg"),
+                "shards": 4, "gen_timeout": 3000,
+            })
+        return out
+    return legs
+
+
+_OC1 = ("oc1-json", {"ONLYCARE": "true", "VALIDATE": "true", "SERIALIZER": "json"})
+_OC0 = ("oc0-json", {"ONLYCARE": "false", "VALIDATE": "true", "SERIALIZER": "json"})
+_OC1P = ("oc1-protobuf", {"ONLYCARE": "true", "VALIDATE": "true", "SERIALIZER": "protobuf"})
+_OC0P = ("oc0-protobuf", {"ONLYCARE": "false", "VALIDATE": "true", "SERIALIZER": "protobuf"})
+_NV = ("oc1-novalidate", {"ONLYCARE": "true", "VALIDATE": "false", "SERIALIZER": "json"})
+
+_at_common = {
+    "level": "model_checking",
+    "assumptions": ["memsql behaves like MySQL for the statements the proxy emits (lenient where MySQL is version "
+                    "dependent); the coordinator rolls branches back in reverse order of registration",
+                    "scenarios in which phase one itself fails without an injected fault are abandoned here (counted "
+                    "as aborted) and reported by the C16/C18 checks"],
+    "trusted_base": AT_TB,
+    "mc": [("ATRollback_MC", "ATRollback_MC.cfg", {"workers": 8, "env": {"ONLYCARE": "true", "VALIDATE": "true"}}),
+           ("ATRollback_MC", "ATRollback_MC.cfg", {"workers": 8, "env": {"ONLYCARE": "false", "VALIDATE": "true"}})],
+}
+
+CHECKS["C01"] = dict(_at_common, **{
+    "level_text": "ATRollback.tla models the application table abstractly (rows [written part, unwritten part] or "
+                  "absent), the statement semantics, the images a branch records and the coordinator's rollback; TLC "
+                  "checks Exact/Honest/Idempotent on the design and enumerates every global transaction of <=2 "
+                  "branches x 1 statement (thorough: 1 branch x 2 statements, plus a foreign write on other rows) over "
+                  "insert/update/delete/upsert x key sets {}, {1}, {2}, {1,2} x 4 initial tables. Each is executed "
+                  "through the real AT proxy driver over memsql on a family of concrete schemas and SQL spellings, the "
+                  "coordinator stand-in delivers the branch rollbacks, and the complete projected table, the undo-log "
+                  "state, the reported status and the idleness of the connections after every step are validated by "
+                  "TLC against the specification, under both settings of only-care-update-columns (thorough: both "
+                  "serializers, validation off).",
+    "level_note": "Trusted: TLC, memsql's MySQL fidelity, the coordinator stand-in, the abstract/concrete row mapping. "
+                  "Bounds: 2 keys, 3 written values, <=2 branches, <=2 statements per branch; schema family "
+                  "{int, nullable, composite, varchar, auto-increment, many-types}.",
+    "technique": "TLA+ spec + TLC design check; TLC-enumerated global transactions replayed through the real AT proxy "
+                 "over an in-memory MySQL; full-state trace validation by TLC",
+    "legs_fn": _atrb_legs(["ATRollback_Gen_C01.cfg"], ["ATRollback_Gen_C01.cfg", "ATRollback_Gen_C01T.cfg"],
+                          [_OC1, _OC0], [_OC1, _OC0, _OC1P, _OC0P, _NV]),
+})
+
+CHECKS["C09"] = dict(_at_common, **{
+    "level_text": "Same specification; the environment additionally commits one foreign write (any of the 7 abstract "
+                  "rows, on either key) between the local commit and the rollback. TLC enumerates 1 branch x 1 "
+                  "statement x every foreign write; the trace specification requires: dirty row => nothing changes and "
+                  "the status is not 'rollbacked'; row equals the before image => success without writing; row equals "
+                  "the after image => restored (a statement with rows of both kinds may also be refused as a whole).",
+    "level_note": "As C01. Bounds: 1 branch, 1 statement, 1 foreign write.",
+    "technique": "TLA+ spec + TLC design check; TLC-enumerated (branch, foreign write) scenarios replayed on the real "
+                 "rollback path; full-state trace validation by TLC",
+    "legs_fn": _atrb_legs(["ATRollback_Gen_C09.cfg"], ["ATRollback_Gen_C09.cfg"], [_OC1, _OC0], [_OC1, _OC0, _OC1P]),
+})
+
+CHECKS["C10"] = dict(_at_common, **{
+    "level_text": "Same specification; the coordinator delivers the rollback up to 3 times, the first delivery with a "
+                  "database fault at statement index 1..7 of the rollback transaction (or none), and a rollback may "
+                  "overtake phase one (delivered inside the BranchRegister reply, before the undo log is flushed). "
+                  "The trace specification requires: a failed attempt changes neither table nor undo log and is not "
+                  "reported 'rollbacked'; repeats answer 'rollbacked' without touching the table and leave the marker; "
+                  "the overtaken phase one fails, commits nothing, marker present.",
+    "level_note": "As C01. Bounds: 1 branch, 1 statement, <=3 deliveries, one fault per scenario.",
+    "technique": "TLA+ spec + TLC design check; TLC-enumerated fault positions and delivery sequences replayed on the "
+                 "real rollback path with injected database faults; full-state trace validation by TLC",
+    "legs_fn": _atrb_legs(["ATRollback_Gen_C10.cfg"], ["ATRollback_Gen_C10.cfg"], [_OC1, _OC0], [_OC1, _OC0, _OC1P]),
+})
